@@ -147,6 +147,22 @@ Theorem C18_fs_clean_input_returns_key : forall D objs0 inputs sched tid t s0 c 
 Proof. exact fs_clean_input_returns_key. Qed.
 Print Assumptions C18_fs_clean_input_returns_key.
 
+(** Once all calls have returned, the keys present are the initial ones and
+    those returned by successful calls, whatever the schedule was. *)
+Theorem C18_fs_final_keys : forall D objs0 inputs sched k,
+  wf_objs D objs0 ->
+  all_done (runs D objs0 inputs sched) ->
+  (lookup_key k (objs (sfs (runs D objs0 inputs sched))) <> None <->
+   lookup_key k objs0 <> None \/
+   exists tid t, nth_error (sthr (runs D objs0 inputs sched)) tid = Some t /\ res t = Some (ROk k)).
+Proof. exact fs_final_keys. Qed.
+Print Assumptions C18_fs_final_keys.
+
+(** The hypothesis on the initial directory is decidable. *)
+Theorem C18_wf_objs_decidable : forall D o, wf_objsb D o = true -> wf_objs D o.
+Proof. exact wf_objsb_sound. Qed.
+Print Assumptions C18_wf_objs_decidable.
+
 (** With a 32-byte digest the "invalid key generated" panic is unreachable. *)
 Theorem C18_fs_no_panic : forall D objs0 inputs sched tid t,
   (forall x, is_bytes (D x) /\ length (D x) = 32%nat) ->
@@ -285,10 +301,26 @@ Print Assumptions C18_source_frozen.
 
 (** ** Non-vacuity: the hypotheses are met, and the runs are not trivial.
     [toyD] is a 32-byte "digest" good enough to execute the model. *)
-Definition toyD (c : bytes) : bytes := firstn 32 (c ++ repeat 0 32).
+Definition toyD (c : bytes) : bytes := firstn 32 (map (fun b => b mod 256) c ++ repeat 0 32).
 
 Example C18_nonvacuous_wf : wf_objs toyD [] /\ mem_ok toyD mem_empty.
 Proof. split; [intros k c H; discriminate|apply mem_empty_ok]. Qed.
+
+(** the assumed law of the hash (32 bytes out) is satisfiable *)
+Example C18_nonvacuous_digest : forall x, is_bytes (toyD x) /\ length (toyD x) = 32%nat.
+Proof.
+  intros x. unfold toyD. split.
+  - apply is_bytes_firstn. apply is_bytes_app. split.
+    + unfold is_bytes. apply Forall_forall. intros b Hb. apply in_map_iff in Hb.
+      destruct Hb as (a & <- & _). unfold is_byte. apply N.mod_lt. discriminate.
+    + unfold is_bytes. apply Forall_forall. intros b Hb. apply repeat_spec in Hb. subst b.
+      unfold is_byte. reflexivity.
+  - rewrite firstn_length, app_length, repeat_length. apply Nat.min_l.
+    rewrite Nat.add_comm. apply Nat.le_add_r.
+Qed.
+
+Example C18_nonvacuous_fault_free : fault_free (repeat (0%nat, false) 14).
+Proof. apply Forall_forall. intros e He. apply repeat_spec in He. now subst e. Qed.
 
 (** Two calls with the same content and one whose input fails after two
     bytes, interleaved chunk by chunk: both good calls return the same key,
